@@ -28,7 +28,9 @@ resolves first with two addresses, v4 after the resolution delay: attempts v6, v
 
 Mutation self-test (2026-09-22, in a private copy of /repo): `*next_is_v6 = !*next_is_v6` removed from
 pop_family -> VIOLATION (kind=attempts); `started = true` removed -> VIOLATION (kind=attempts); the
-fail-fast `set_none()` removed -> VIOLATION (kind=attempts); undoing returns to exit 0.
+fail-fast `set_none()` removed -> VIOLATION (kind=attempt-times); with the patches reverted the same setup is back to
+exit 0 (run against a private copy of /repo with the same harness and judge, because a rebuild takes ~10 min on the
+shared machine and /repo must not stay mutated that long).
 """
 import copy
 import json
@@ -51,7 +53,10 @@ META = {
             "(quick) / 6 (thorough) connect behaviours.  Alternation is read as: consecutive attempts both started while both "
             "families were queued differ in family (see module docstring; the strict reading is refuted by TLC on the model "
             "of the code).  'Within the resolution delay' is read strictly (<); at the exact boundary either order is accepted.  "
-            "The TCP connect itself and tokio's timers are trusted; the per-attempt timeout wrapper is duplicated in the hook path.",
+            "The TCP connect itself and tokio's timers are trusted; the per-attempt timeout wrapper is duplicated in the hook path.  "
+            "The three delays are constants of the spec (cfg files / BASE): start instants of attempts are compared exactly.  "
+            "Which error a failed dial carries is not compared beyond no-port / nothing-resolved / all-attempts-failed; a "
+            "failure may be returned later than the model's instant, never earlier.",
     "design_ref": "§6 C15, A.7",
 }
 
@@ -147,6 +152,23 @@ def execute(ctx, envs):
     return obs
 
 
+def err_class(o):
+    """The property does not say which error a failed dial reports: only 'no port', 'nothing resolved' (no attempt was
+    made) and 'every attempt failed' are distinguished."""
+    if o["st"] != "err":
+        return ""
+    return "port" if o["err"] == "port" else ("dns" if not o["attempts"] else "failed")
+
+
+def explains(a, got):
+    """Does the model behaviour `a` explain the observation?  Attempt log, result and returned address must be equal; a
+    success must be returned at the model's instant, a failure not earlier than the model's (failing later than necessary
+    is not against the property)."""
+    if a["attempts"] != got["attempts"] or a["st"] != got["st"] or a["a"] != got["a"] or err_class(a) != err_class(got):
+        return False
+    return got["done_at"] >= a["done_at"] if got["st"] == "err" else got["done_at"] == a["done_at"]
+
+
 def classify(allowed, got):
     """Which part of the observation no allowed outcome explains."""
     if got["st"] in ("panic", "wedged"):
@@ -160,7 +182,7 @@ def classify(allowed, got):
     same = [a for a in allowed if a["attempts"] == got["attempts"]]
     if not any(a["st"] == got["st"] and a["a"] == got["a"] for a in same):
         return "result"
-    if not any(a["st"] == got["st"] and a["a"] == got["a"] and a["err"] == got["err"] for a in same):
+    if not any(a["st"] == got["st"] and a["a"] == got["a"] and err_class(a) == err_class(got) for a in same):
         return "error-class"
     return "return-time"
 
@@ -174,11 +196,12 @@ def judge(ctx, envs, allowed, obs, report=True):
             ctx.count(case_key=env_key(e), nontrivial=nres >= 2)
             if nres >= 3 and len(got["attempts"]) >= 3 and e["v4"]["t"] != e["v6"]["t"]:
                 ctx.sample({"env": {k: e[k] for k in ("pref6", "url", "v4", "v6", "beh")}, "model": al, "observed": got}, limit=3)
-        if got in al and not o.get("note"):
+        ok = any(explains(a, got) for a in al)
+        if ok and not o.get("note"):
             continue
         bad += 1
         if report:
-            kind = classify(al, got) if got not in al else "returned-stream"
+            kind = classify(al, got) if not ok else "returned-stream"
             ctx.report({"kind": kind, "pref6": e["pref6"], "resolved": "v4:%d v6:%d" % (e["v4"]["n"], e["v6"]["n"]),
                         "observed_st": got["st"]},
                        "dial_happy_eyeballs deviates from the spec (%s) in environment %s: model allows %s, observed %s %s"
